@@ -1157,13 +1157,12 @@ step_exec() (
 	{
 		"${ROBSDEXEC}" -m "${_MODE}" ${ROBSDCONF:+"-C${ROBSDCONF}"} \
 			${_trace:+-x} "${_step}" || echo "$?" >"${_fail}"
-
-		if [ "${_MODE}" = "robsd-regress" ]; then
-			# Regress tests can fail but still exit zero, check the
-			# log for failures.
-			regress_failed "${_log}" && echo 1 >"${_fail}"
-		fi
 	} </dev/null 2>&1 | tee "${_log}"
+	if [ "${_MODE}" = "robsd-regress" ]; then
+		# Regress tests can fail but still exit zero, check the log for
+		# failures. Must happen once tee is done writing the log.
+		regress_failed "${_log}" && echo 1 >"${_fail}"
+	fi
 	_err="$(<"${_fail}")"
 	rm -f "${_fail}"
 	return "${_err}"
